@@ -230,6 +230,19 @@ Theorem find_selected_all_excludes : forall within except c, In c (retain_m with
 Proof. exact retain_m_spec. Qed.
 Print Assumptions find_selected_all_excludes.
 
+(* lower_sorts and the compute list of an aggregate: the ids are the ids consecutive declare_as_column calls handed back, in order
+   (Model/LowererEntries.v sorts_check, evaluated on every replayed trace) *)
+Theorem sorts_are_consecutive_declare_results : forall top t, sorts_check top t = true ->
+  match t with
+  | TSort srt => exists pre, top = pre ++ sorts_cids srt
+  | TAggregate _ c => exists pre, top = pre ++ c
+  | TTake _ _ srt => exists pre post, top = pre ++ sorts_cids srt ++ post
+  | TCompute _ _ (Some w) _ => exists pre post, top = pre ++ sorts_cids (w_sort w) ++ post
+  | _ => True
+  end.
+Proof. exact sorts_check_sound. Qed.
+Print Assumptions sorts_are_consecutive_declare_results.
+
 (* ---- utils/id_gen.rs: the generators the SQL back end loads from the RQ it is handed (79f4a51) ---- *)
 
 (* a loaded generator only hands out ids that do not occur in the query, and it starts at most at usize::MAX / 2 + 1, so
@@ -514,4 +527,16 @@ Definition n18_rq : rq :=
 
 Example c16_ex_aggregate_partitioned_by_its_own_column :
   rq_wf n18_rq = true /\ agg_overlaps n18_rq = [1] /\ rq_agg_ok n18_rq = false /\ rq_agg_ok f4_head_rq = true.
+Proof. vm_compute. auto. Qed.
+
+(* the declare window: `from t | sort {a, -id}`: the Sort's ids are the ids of the two declares in front of it; with the keys swapped
+   in the pushed transform the shape check refuses the operation *)
+Definition sort_trace (k1 k2 : cid) : list (lop * list obs) :=
+  [ (LOp (ODeclExtern [s_t] [RSingle (Some s_a); RSingle (Some s_id); RWildcard]), []);
+    (LOp (OBegin false 1 (Some s_t) (SExisting 0)), []);
+    (LOp (ODeclare 2 (ERef 0) None false true), []);
+    (LOp (ODeclare 3 (ERef 1) None false true), []);
+    (LOp (OPush (TSort [(Asc, k1); (Desc, k2)])), []) ].
+
+Example c16_ex_sorts_window : sorts_verdict (sort_trace 0 1) = 0 /\ sorts_verdict (sort_trace 1 0) = 5.
 Proof. vm_compute. auto. Qed.
